@@ -46,7 +46,8 @@ Presets == [empty    |-> <<>>,
             short0   |-> <<<<0, 0>>, <<1, 479>>>>,
             full     |-> <<<<0, 1073741724>>>>,
             over     |-> <<<<0, 1073741825>>>>,
-            last     |-> <<<<1022, 480>>>>]
+            last     |-> <<<<1022, 480>>>>,
+            all      |-> [i \in 1..1023 |-> <<i - 1, 480>>]]       \* every index taken
 Pre == Presets[PreName]
 FilesOfPre(l) == [i \in {l[k][1] : k \in DOMAIN l} |-> l[CHOOSE k \in DOMAIN l : l[k][1] = i][2]]
 
